@@ -28,6 +28,10 @@ SOURCES = [
     ['list', [3, 1, 2], 'wu'],
     ['DictDataset', [['b', 3], ['a', 1], ['c', 2]]],
     ['list', [], 'wu'],
+    ['special', 'falsy', False],
+    ['special', 'arrays', True],
+    ['special', 'eqany', False],
+    ['special', 'falsy', True],
 ]
 
 UNARY = [
@@ -118,7 +122,7 @@ CORE = [
 FULL = UNARY + BINARY
 
 KIND_PROP = {
-    'iter': 'C01', 'iter-again': 'C01', 'copy': 'C01', 'copy-freeze': 'C01', 'parent-changed': 'C01',
+    'iter': 'C01', 'iter-again': 'C01', 'iter-after-aborted-iteration': 'C01', 'iter-two-iterators-in-flight': 'C01', 'copy': 'C01', 'copy-freeze': 'C01', 'parent-changed': 'C01',
     'build-refused': 'C01',
     'len': 'C02', 'indexable-lost': 'C02', 'iter-after-index': 'C02', 'index': 'C02', 'index-negative': 'C02',
     'index-out-of-range-returns': 'C02', 'index-out-of-range-wrong-error': 'C02', 'index-error-lost': 'C02',
@@ -129,6 +133,8 @@ KIND_PROP = {
 
 def stage_name(ref, source_spec, nops):
     if nops == 0:
+        if source_spec[0] == 'special':
+            return f'special[{source_spec[1]}]'
         return f'{source_spec[0]}[{source_spec[2] if len(source_spec) > 2 else "raw"}]'
     return ref.top
 
@@ -137,6 +143,8 @@ def absent_keys(source_spec):
     ks = ['zz', '']
     if source_spec[0] in ('dict', 'DictDataset'):
         ks += [k for k, _ in source_spec[1]]
+    if source_spec[0] == 'special':
+        ks += ['k0', 'k1', 'k2']
     return ks + ['x0', 'y0']
 
 
@@ -225,7 +233,7 @@ def structural_tags(ref, op):
 
 def describe(program):
     s = program['source']
-    src = f'{s[0]}({json.dumps(s[1])}{"," + s[2] if len(s) > 2 else ""})'
+    src = f'{s[0]}({json.dumps(s[1])}{"," + str(s[2]) if len(s) > 2 else ""})'
     return src + ''.join('.' + op[0] + '(' + ','.join(json.dumps(a) for a in op[1:]) + ')' for op in program['ops'])
 
 
